@@ -129,8 +129,8 @@ theorem C17_no_leak (ao : AliasOracle) (s : St) (r : Run) (h : s.Idle) : (execRu
       rw [hro]
       exact (exec_inactive p s ha hf).2.1
   | play cfg id p => exact (runPlay_spec ao cfg s id p h).1.2.1
-  | enable => exact h.2.1
-  | disable => exact h.2.1
+  | enable => exact (idle_doSetEnabled true h).2.1
+  | disable => exact (idle_doSetEnabled false h).2.1
 
 /-- Storage-level sampling by a size-based calculator follows the same rule on the calculator's ratio. -/
 theorem C17_s3_same_rule (r d : Q) :
@@ -189,7 +189,7 @@ theorem C17_kept_count (ao : AliasOracle) (cfg : OpCfg) (hsk : cfg.params.skippe
         simp only [List.tail_cons] at hdr
         have hlen' : rest.length ≤ (runOperation ao cfg s p).1.draws.length := by
           rw [hdr.1]; simp only [List.length_cons, hds] at hlen; omega
-        obtain ⟨i1, i2, i3⟩ := ih (runOperation ao cfg s p).1 hidle' hdr.2
+        obtain ⟨i1, i2, i3⟩ := ih (runOperation ao cfg s p).1 hidle' (hdr.2 rfl)
           (fun q hq' => hq q (List.mem_cons_of_mem _ hq')) hlen'
         simp only [List.map_cons, execAll, execRun, List.length_cons]
         refine ⟨?_, ?_, ?_⟩
